@@ -444,6 +444,7 @@ class World:
         if job is None:
             return {'status': 'NoSuchRef', 'trace': [], 'ops': []}
         self.trace, self.ops, self.fault = [], [], fault
+        self._reset_stages()
         rec = Recorder(self)
         before = len(b.tasks_done)
         with rec:
@@ -451,8 +452,14 @@ class World:
             b.process_task()
         self.jobs_run += 1
         return {'status': job.status or ('OK' if job.done else 'NOTDONE'), 'details': job.details,
-                'trace': self.trace, 'ops': self.ops, 'done': job.done,
+                'trace': self.trace, 'ops': self.ops, 'done': job.done, 'stages': list(self.stages.roots),
                 'worker_clean': 'current job' not in b.status and len(b.tasks_done) >= before}
+
+    def _reset_stages(self):
+        from . import pipeline
+        if getattr(self, 'stages', None) is None:
+            self.stages = pipeline.Stages()
+        self.stages.reset()
 
     def snapshot(self):
         """Copy of the remote repository and of the mock host state (for re-running a job from the same state)."""
@@ -548,9 +555,11 @@ class World:
         while self.berte.task_queue.qsize() and limit:
             limit -= 1
             self.trace, self.ops, self.fault = [], [], None
+            self._reset_stages()
             with Recorder(self):
                 job = self.berte.process_task()
-            yield {'job': str(job), 'status': job.status, 'trace': self.trace, 'ops': self.ops}
+            yield {'job': str(job), 'status': job.status, 'trace': self.trace, 'ops': self.ops,
+                   'stages': list(self.stages.roots)}
 
 
 # ---------------------------------------------------------------------------------- recording / faults
@@ -740,6 +749,9 @@ class Recorder:
         self._patch(m.PullRequestController, 'decline', w_host('decline'))
         self._patch(m.PullRequestController, 'set_bot_status', w_host('bot_status'))
         self._patch(m.Repository, 'create_pull_request', w_host('create_pr'))
+        # the call sites of the job handlers (Model/Pipeline.v), recorded as a call tree
+        from . import pipeline
+        pipeline.install(self._patch, w)
         return self
 
     def __exit__(self, et, ev, tb):
